@@ -231,8 +231,11 @@ def make_tensor(e: dict, sandbox: str):
             f.write(b"\xee" * e.get("ext_pad", 0))
             off = f.tell()
             f.write(raw)
-        t = ir.ExternalTensor(e["ext_file"], off, len(raw), dt, shape=ir.Shape(shape), name=name,
-                              base_dir=sandbox)
+        # a source in a sub-directory is referred to the way a model loaded from that directory would: location = the bare
+        # file name, base_dir = that directory
+        sub, loc = os.path.split(e["ext_file"])
+        t = ir.ExternalTensor(loc, off, len(raw), dt, shape=ir.Shape(shape), name=name,
+                              base_dir=os.path.join(sandbox, sub) if sub else sandbox)
     else:
         raise ValueError(kind)
     if e.get("meta"):
